@@ -1734,3 +1734,178 @@ Proof.
   unfold no_abortb. rewrite forallb_forall. intros H. apply Forall_forall. intros x Hx. specialize (H x Hx).
   destruct x; try exact I. discriminate.
 Qed.
+
+(* ------------------------------------------------------------------------------------------ *)
+(* witnesses: a history exercising everything, and the necessity of each hypothesis *)
+
+Definition reach (le : bool) (c : config) (h0 : N) (blocks : list (N * list N)) (h : list (op * script)) : option tower :=
+  match init c h0 blocks with
+  | Some t0 => let '(t, xs) := run le t0 h in if no_abortb xs then Some t else None
+  | None => None
+  end.
+
+Lemma reach_inv le c h0 blocks h t : reach le c h0 blocks h = Some t -> Inv t.
+Proof.
+  unfold reach. destruct (init c h0 blocks) as [t0|] eqn:Ei; [|discriminate].
+  pose proof (inv_reachable le c h0 blocks t0 h Ei) as Hr.
+  destruct (run le t0 h) as [t1 xs]. cbn [fst snd] in Hr.
+  destruct (no_abortb xs) eqn:En; [|discriminate]. intros H; inversion H; subst. apply Hr. apply no_abortb_sound. exact En.
+Qed.
+
+Definition ex_cfg : config := mk_config 10 1000 10.
+Definition ex_blob (k p len : N) : blob := mk_blob k (Some p) len.
+Definition ex_blocks : list (N * list N) := [(900, []); (899, [])].
+Definition ex_prefix : list (op * script) :=
+  [ (ORegister 1, []);
+    (OAdd (Some 1) 50 (ex_blob 50 51 3000) 20 7, []);                 (* 2 slots *)
+    (OAdd (Some 1) 60 (ex_blob 60 61 100) 20 8, []);                  (* 1 slot *)
+    (* both disputes are mined; penalty 51 is accepted by the node, penalty 61 is rejected *)
+    (OConnect 1001 [50; 60], [(51, (G_not_found, A_ok)); (61, (G_not_found, A_code (-26)))]);
+    (OConnect 1002 [51], []) ]                                        (* penalty 51 confirmed at height 102 *)
+  ++ map (fun i => (OConnect (2000 + N.of_nat i) [], [])) (seq 0 99). (* ... up to height 201 *)
+(* the block at height 202 completes the tracker: the 2 slots come back *)
+Definition ex_hist : list (op * script) := ex_prefix ++ [(OConnect 3000 [], [])].
+
+(* --- the `as u32` wrap of add_update_appointment (hypothesis bal < 2^32 of add_bal) --- *)
+Definition wrap_cfg : config := mk_config U32MAX 1000 10.
+Definition wrap_hist : list (op * script) :=
+  [ (ORegister 1, []);
+    (OAdd (Some 1) 50 (mk_blob 50 None (U32MAX * 2048)) 20 7, []);    (* takes all 2^32-1 slots *)
+    (ORegister 1, []) ].                                              (* 2^32-1 more *)
+Definition wrap_op : op := OAdd (Some 1) 50 (mk_blob 50 None 2048) 20 9.   (* replaced by a 1-slot version *)
+
+Theorem add_bal_wrap_refuted :
+  exists le t loc b delay sig sc t' st sg sl e u,
+    Inv t /\ step le t (OAdd (Some u) loc b delay sig) sc = (t', OAddRes (AddOk st sg sl e)) /\
+    held_version (db_apps t') loc u b = true /\ bal t' u <> bal t u.
+Proof.
+  destruct (reach true wrap_cfg 100 ex_blocks wrap_hist) as [t|] eqn:Er; [|vm_compute in Er; discriminate].
+  pose proof (reach_inv _ _ _ _ _ _ Er) as HI.
+  exists true, t, 50, (mk_blob 50 None 2048), 20, 9, [], (fst (step true t wrap_op [])).
+  vm_compute in Er. inversion Er; subst t. clear Er.
+  do 4 eexists. exists 1. split; [exact HI|]. split; [vm_compute; reflexivity|]. split; [vm_compute; reflexivity|].
+  vm_compute. discriminate.
+Qed.
+
+(* ... and it is reachable: the conservation check fails on an abort-free history from bootstrap *)
+Theorem ledger_conserved_needs_no_wrap :
+  exists le c h0 blocks t0 h,
+    init c h0 blocks = Some t0 /\ Forall not_abort (snd (run le t0 h)) /\
+    ~ Forall (fun ok => ok = true) (c07_run le c t0 (m_init h0) h).
+Proof.
+  destruct (init wrap_cfg 100 ex_blocks) as [t0|] eqn:Ei; [|vm_compute in Ei; discriminate].
+  exists true, wrap_cfg, 100, ex_blocks, t0, (wrap_hist ++ [(wrap_op, [])]). split; [exact Ei|].
+  vm_compute in Ei. inversion Ei; subst t0. clear Ei. split.
+  - apply no_abortb_sound. vm_compute. reflexivity.
+  - intros H. rewrite Forall_forall in H. specialize (H false). assert (Hf : false = true); [|discriminate].
+    apply H. vm_compute. tauto.
+Qed.
+
+(* --- the hypotheses of connect_bal, one by one (boolean forms of the four clauses of connect_side) --- *)
+Definition s1a_b (t : tower) (txs : list N) : bool :=
+  forallb (fun k => implb (completing (gk_height t + 1) txs k) (negb (mem_uuid (trk_uuid k) (reorged t)))) (db_trks t).
+Definition s1b_b (t : tower) (txs : list N) : bool :=
+  forallb (fun k => implb (completing (gk_height t + 1) txs k) (negb (memN (t_loc k) txs))) (db_trks t).
+Definition s2_b (t : tower) (txs : list N) : bool :=
+  forallb (fun a => implb (memN (a_loc a) txs && is_none (find_trk (db_trks t) (app_uuid a)))
+                          (match decrypt (a_blob a) (a_loc a) with
+                           | Some p => is_none (ti_get (r_index t) p) | None => true end)) (db_apps t).
+Definition s3_b (t : tower) : bool :=
+  forallb (fun e => match snd e with ConfirmedIn _ => false | _ => true end) (car_memo t).
+
+Definition connect_fails (le : bool) (t : tower) (hash : N) (txs : list N) (sc : script) (v : N) : Prop :=
+  let t' := fst (step le t (OConnect hash txs) sc) in
+  snd (step le t (OConnect hash txs) sc) = OBlockRes /\ has_row t' v = true /\
+  bal t' v + forfeited_connect t txs t' v <> bal t v.
+
+(* S1, first half: a completing tracker that sits in `reorged` is skipped by check_confirmations; if the node
+   then rejects its dispute the row is deleted without refund.  (State obtained from a reachable one by
+   writing `reorged`; no reachable state is known to violate this clause.) *)
+Theorem connect_bal_needs_not_reorged :
+  exists le t hash txs sc v,
+    Inv t /\ s1b_b t txs = true /\ s2_b t txs = true /\ s3_b t = true /\ connect_fails le t hash txs sc v.
+Proof.
+  destruct (reach true ex_cfg 100 ex_blocks ex_prefix) as [t|] eqn:Er; [|vm_compute in Er; discriminate].
+  pose proof (reach_inv _ _ _ _ _ _ Er) as HI.
+  exists true, (set_reorged t [(50, 1)]), 3000, [], [(50, (G_not_found, A_code (-26)))], 1.
+  split; [eapply inv_frame; [|exact HI]; repeat split|].
+  vm_compute in Er. inversion Er; subst t. clear Er HI.
+  split; [vm_compute; reflexivity|]. split; [vm_compute; reflexivity|]. split; [vm_compute; reflexivity|].
+  unfold connect_fails. split; [vm_compute; reflexivity|]. split; [vm_compute; reflexivity|]. vm_compute. discriminate.
+Qed.
+
+(* S1, second half: the dispute of a completing tracker is mined again in the completing block and the node
+   rejects the penalty: the watcher deletes the row (no refund) before the responder can complete it. *)
+Theorem connect_bal_needs_dispute_not_remined :
+  exists le t hash txs sc v,
+    Inv t /\ s1a_b t txs = true /\ s2_b t txs = true /\ s3_b t = true /\ connect_fails le t hash txs sc v.
+Proof.
+  destruct (reach true ex_cfg 100 ex_blocks ex_prefix) as [t|] eqn:Er; [|vm_compute in Er; discriminate].
+  pose proof (reach_inv _ _ _ _ _ _ Er) as HI.
+  exists true, t, 3000, [50], [(51, (G_not_found, A_code (-26)))], 1. split; [exact HI|].
+  vm_compute in Er. inversion Er; subst t. clear Er HI.
+  split; [vm_compute; reflexivity|]. split; [vm_compute; reflexivity|]. split; [vm_compute; reflexivity|].
+  unfold connect_fails. split; [vm_compute; reflexivity|]. split; [vm_compute; reflexivity|]. vm_compute. discriminate.
+Qed.
+
+(* S2: the penalty was confirmed exactly IRREVOCABLY_RESOLVED blocks before its dispute shows up: the tracker is
+   created as ConfirmedIn(h - 100) by the watcher and completed by the responder in the same block; the
+   row is refunded although it had no tracker in the pre-state (the monitor counts it as forfeited). *)
+Definition s2_blocks : list (N * list N) := map (fun i => (800 + N.of_nat i, [])) (seq 0 100).
+Definition s2_hist : list (op * script) :=
+  [ (ORegister 1, []); (OConnect 1001 [71], []); (OAdd (Some 1) 70 (ex_blob 70 71 100) 20 7, []) ]
+  ++ map (fun i => (OConnect (2000 + N.of_nat i) [], [])) (seq 0 99).
+
+Theorem connect_bal_needs_penalty_not_indexed :
+  exists le t hash txs sc v,
+    Inv t /\ s1a_b t txs = true /\ s1b_b t txs = true /\ s3_b t = true /\ connect_fails le t hash txs sc v.
+Proof.
+  destruct (reach true ex_cfg 100 s2_blocks s2_hist) as [t|] eqn:Er; [|vm_compute in Er; discriminate].
+  pose proof (reach_inv _ _ _ _ _ _ Er) as HI.
+  exists true, t, 3000, [70], [], 1. split; [exact HI|].
+  vm_compute in Er. inversion Er; subst t. clear Er HI.
+  split; [vm_compute; reflexivity|]. split; [vm_compute; reflexivity|]. split; [vm_compute; reflexivity|].
+  unfold connect_fails. split; [vm_compute; reflexivity|]. split; [vm_compute; reflexivity|]. vm_compute. discriminate.
+Qed.
+
+(* S3: a `ConfirmedIn` in the carrier's memo has the same effect.  (State obtained from a reachable one by
+   writing the memo; send_status never produces ConfirmedIn.) *)
+Definition s3_hist : list (op * script) :=
+  [ (ORegister 1, []); (OAdd (Some 1) 80 (ex_blob 80 81 100) 20 7, []) ].
+
+Theorem connect_bal_needs_memo_ok :
+  exists le t hash txs sc v,
+    Inv t /\ s1a_b t txs = true /\ s1b_b t txs = true /\ s2_b t txs = true /\ connect_fails le t hash txs sc v.
+Proof.
+  destruct (reach true ex_cfg 100 ex_blocks s3_hist) as [t|] eqn:Er; [|vm_compute in Er; discriminate].
+  pose proof (reach_inv _ _ _ _ _ _ Er) as HI.
+  exists true, (set_car_memo t [(81, ConfirmedIn 1)]), 3000, [80], [], 1.
+  split; [eapply inv_frame; [|exact HI]; repeat split|].
+  vm_compute in Er. inversion Er; subst t. clear Er HI.
+  split; [vm_compute; reflexivity|]. split; [vm_compute; reflexivity|]. split; [vm_compute; reflexivity|].
+  unfold connect_fails. split; [vm_compute; reflexivity|]. split; [vm_compute; reflexivity|]. vm_compute. discriminate.
+Qed.
+
+(* ODisconnect with an empty responder index: the model's step does nothing, TowerMon.mon_step decrements
+   m_height all the same; a later completion is then judged at the wrong height by ledger_step and the
+   conservation check fails on a correct, abort-free trace (a false alarm of the monitor). *)
+Definition disc_hist : list (op * script) :=
+  [ (ORegister 1, []);
+    (OAdd (Some 1) 50 (ex_blob 50 51 3000) 20 7, []);
+    (OConnect 1001 [50], [(51, (G_not_found, A_ok))]);
+    (OConnect 1002 [51], []);
+    (ODisconnect, []) ]
+  ++ map (fun i => (OConnect (2000 + N.of_nat i) [], [])) (seq 0 100).
+
+Theorem ledger_conserved_needs_disconnect_side :
+  exists le c h0 blocks t0 h,
+    init c h0 blocks = Some t0 /\ Forall not_abort (snd (run le t0 h)) /\
+    ~ Forall (fun ok => ok = true) (c07_run le c t0 (m_init h0) h).
+Proof.
+  destruct (init ex_cfg 100 []) as [t0|] eqn:Ei; [|vm_compute in Ei; discriminate].
+  exists true, ex_cfg, 100, [], t0, disc_hist. split; [exact Ei|].
+  vm_compute in Ei. inversion Ei; subst t0. clear Ei. split.
+  - apply no_abortb_sound. vm_compute. reflexivity.
+  - intros H. rewrite Forall_forall in H. specialize (H false). assert (Hf : false = true); [|discriminate].
+    apply H. vm_compute. tauto.
+Qed.
